@@ -370,6 +370,18 @@ def parse_before_write(repo: Repo, rep):
             reaches_head = any(lp in [b for b, _ in x.succ] for x in r) or any(b is lp for x in body_start for b, _ in x.succ if x in parses and False)
             if parses and not reaches_head and nodes_dominate(cfg, [lp], fn):
                 good = True
+            # a failed parse must keep the write from happening: its exceptional edge never leads to fix_all
+            for pn in parses:
+                exc_starts = [b for b, l in pn.succ if l == "exc"]
+                if exc_starts and fn in reach(cfg, exc_starts):
+                    good = False
+                    rep.violation(
+                        "R-PARSE-BEFORE-WRITE",
+                        f,
+                        pn.ast,
+                        "a failed parse of the new content is caught and the hook goes on to fix_all(): the parse was the only thing that kept unparsable generated code off the disk, now the broken file is written",
+                        construct="parse-error-swallowed",
+                    )
         if good:
             rep.ok("R-PARSE-BEFORE-WRITE", f, fc, "every file's new code is parsed before fix_all")
         else:
